@@ -226,7 +226,7 @@ impl Parse for OpClosure {
 // ---------------------------------------------------------------- item location
 
 enum Found<'a> {
-    Fn { start: usize, sig: &'a syn::Signature, block: Option<&'a syn::Block>, end: usize, attrs: &'a [syn::Attribute] },
+    Fn { start: usize, sig: &'a syn::Signature, block: Option<&'a syn::Block>, end: usize, attrs: &'a [syn::Attribute], pub_vis: Option<(usize, usize)> },
     Mac { mac: &'a syn::Macro },
 }
 
@@ -309,6 +309,7 @@ fn find_item<'a>(src: &str, items: &'a [syn::Item], sel: &str) -> Result<Found<'
             block: Some(&f.block),
             end: br(f.block.span()).1,
             attrs: &f.attrs,
+            pub_vis: match &f.vis { syn::Visibility::Public(p) => Some(br(p.span)), _ => None },
         });
     }
     if let Some(rest) = head.strip_prefix("macro ") {
@@ -351,6 +352,7 @@ fn find_item<'a>(src: &str, items: &'a [syn::Item], sel: &str) -> Result<Found<'
                                     block: f.default.as_ref(),
                                     end,
                                     attrs: &f.attrs,
+                                    pub_vis: None,
                                 });
                             }
                         }
@@ -405,6 +407,7 @@ fn find_item<'a>(src: &str, items: &'a [syn::Item], sel: &str) -> Result<Found<'
             block: Some(&f.block),
             end: br(f.block.span()).1,
             attrs: &f.attrs,
+            pub_vis: match &f.vis { syn::Visibility::Public(p) => Some(br(p.span)), _ => None },
         });
     }
     Err(format!("bad selector `{}`", sel))
@@ -765,7 +768,11 @@ fn process_item(repo: &str, req: &Value, cache: &mut BTreeMap<String, (String, s
     let (region_start, region_end, block, dropped_attrs): (usize, usize, Option<&syn::Block>, Vec<String>);
     let mut fn_name = String::new();
     match &found {
-        Found::Fn { start, sig, block: b, end, attrs } => {
+        Found::Fn { start, sig, block: b, end, attrs, pub_vis } => {
+            if let (Some((vs, ve)), true) = (pub_vis, req["vis_crate"].as_bool().unwrap_or(false)) {
+                cx.rep(*vs, *ve, "pub(crate)");
+                cx.count("VIS(`pub fn` -> `pub(crate) fn`)");
+            }
             region_start = *start;
             region_end = *end;
             block = *b;
